@@ -1385,6 +1385,34 @@ func ruleReaderLifetime(c *Ctx, rule string) {
 					}
 				})
 			}
+			// a local that a closure captures lives in memory: right after `original = files.ReaderFrom...(..)` the loads of the
+			// local in the same block (`defer original.Close()`) are the reader
+			instrsOf(fn, func(x ssa.Instruction) {
+				st, ok := x.(*ssa.Store)
+				if !ok || !alias[st.Val] {
+					return
+				}
+				al, ok := st.Addr.(*ssa.Alloc)
+				if !ok {
+					return
+				}
+				past := false
+				for _, y := range st.Block().Instrs {
+					if y == ssa.Instruction(st) {
+						past = true
+						continue
+					}
+					if !past {
+						continue
+					}
+					if st2, ok := y.(*ssa.Store); ok && st2.Addr == ssa.Value(al) {
+						break
+					}
+					if u, ok := y.(*ssa.UnOp); ok && u.Op == token.MUL && u.X == ssa.Value(al) {
+						alias[u] = true
+					}
+				}
+			})
 			// the record that holds the reader may itself travel on: returned to the caller, or handed to a function of the repository
 			// (which then closes `target.reader`); who closes it is then not decided in this function
 			leavesInRecord := ""
@@ -1436,6 +1464,11 @@ func ruleReaderLifetime(c *Ctx, rule string) {
 							if a, ok := fa.X.(*ssa.Alloc); ok && held[lf{a, fa.Field}] {
 								return // a field of a struct of this function: followed above
 							}
+						}
+						if root, isParam := traceAddr(y.Addr).Root.(*ssa.Parameter); isParam && fn.Signature.Recv() != nil && len(fn.Params) > 0 && root == fn.Params[0] {
+							// a method of a record that manages the reader (`out.open()` ... `out.release()`): the record's user closes it
+							leavesInRecord = "kept in a field of the receiver, " + exprStr(y.Addr)
+							return
 						}
 						if _, isAlloc := traceAddr(y.Addr).Root.(*ssa.Alloc); !isAlloc || !traceAddr(y.Addr).local() {
 							escapes = "stored into " + exprStr(y.Addr) + " [" + c.pos(y.Pos()) + "]"
